@@ -200,6 +200,10 @@ def component_command_case(args):
         sc.close()
 
 
+def dangling_stream(args):
+    return t3.dangling_stream_case(args[0], args[1], "drain-stream")
+
+
 def run(rep, tier, seed):
     proved = vlib.prove(rep, MODULE, THEOREMS)
     ok, msg = vlib.build_ocaml()
@@ -210,11 +214,12 @@ def run(rep, tier, seed):
     results += t3.run_many(runto_case, [(seed, i) for i in range(n)])
     results += t3.run_many(drain_case, [(seed, i) for i in range(n // 4)])
     results += t3.run_many(lockstep_case, [(seed, i) for i in range(n // 5)])
+    results += t3.run_many(dangling_stream, [(seed, i) for i in range(n // 5)])
     results += t3.run_many(component_command_case, [(seed, i) for i in range(n // 5)])
     t3.report_t3(rep, MODULE, proved, results, "T3 unconnected ports / RunTo")
     rep.cov["evaluations"] = len(results)
     rep.cov["distinct_nontrivial"] = len({r["spec"] for r in results})
-    rep.cov["rule"] = "unconnected: a random workflow in which one in-port loses its connection or one extra parameter port is created and never connected -- must exit non-zero, execute no command, create no file; RunTo: random workflows run to 1-2 random target processes by name, by regular expression or by process value, plus FromStr feeders longer than the buffer upstream of the target -- executed tasks and files must be exactly those of the upstream closure as computed by the reference evaluator; drain: a dangling file out-port and an unread parameter source together, one of them longer than the buffer after the other has closed -- the run must complete; lock-step: a component emitting a parameter and a file alternately, the parameters unconsumed or cut off by RunTo, more pairs than the buffer holds -- all tasks of the process that is run must execute; component: a CommandToParams component whose command leaves a mark, outside the closure of a RunTo target / in a refused workflow / in a fully wired one -- the mark must appear only in the last; every case distinct"
+    rep.cov["rule"] = "unconnected: a random workflow in which one in-port loses its connection or one extra parameter port is created and never connected -- must exit non-zero, execute no command, create no file; RunTo: random workflows run to 1-2 random target processes by name, by regular expression or by process value, plus FromStr feeders longer than the buffer upstream of the target -- executed tasks and files must be exactly those of the upstream closure as computed by the reference evaluator; drain: a streaming out-port that nobody consumes or whose consumer RunTo cuts off -- the run must complete and leave no FIFO; a dangling file out-port and an unread parameter source together, one of them longer than the buffer after the other has closed -- the run must complete; lock-step: a component emitting a parameter and a file alternately, the parameters unconsumed or cut off by RunTo, more pairs than the buffer holds -- all tasks of the process that is run must execute; component: a CommandToParams component whose command leaves a mark, outside the closure of a RunTo target / in a refused workflow / in a fully wired one -- the mark must appear only in the last; every case distinct"
     rep.cov["samples"] = [results[0]["spec"], results[-1]["spec"]]
     kinds = {}
     for r in results:
